@@ -59,13 +59,20 @@ def build_layout(box, rnd, srcrel):
     # in-scope files far below the source directory ("at any depth")
     for depth in (16, 17, 18, 33, 64, 120):
         names.append("/".join("p%d" % j for j in range(depth)) + "/at_depth_%d.rs" % depth)
+    # directories that other tools conventionally leave out, each next to the marker such tools go by (a crate root with its build
+    # directory, node_modules beside package.json, a git-ignored directory, a cache directory tag, a virtualenv): the scope rule
+    # knows no such exception - "regular files below the source directory, at any depth"
+    names += ["Cargo.toml", "target/debug/build/app-1a2b3c/out/generated.rs", "crates/tool/Cargo.toml", "crates/tool/src/lib.rs",
+              "crates/tool/target/debug/build/tool-9f8e/out/bindings.rs", "crates/tool/target/CACHEDIR.TAG",
+              "web/package.json", "web/node_modules/pkg/index.rs", ".git/HEAD", ".git/hooks/sample.rs",
+              ".gitignore", ".ignore", "ignored_by_git/gen.rs", "build/CACHEDIR.TAG", "build/cached.rs", "venv/pyvenv.cfg", "venv/lib/x.rs"]
     # permission bits are not part of the scope rule
     modes = {"ro444.rs": 0o444, "ro400.rs": 0o400, "exec755.rs": 0o755, "rodir/inner_of_readonly_dir.rs": 0o444, "ro_notes.txt": 0o444}
     names += list(modes)
     # names that are not valid UTF-8 (a Latin-1 file name on a UTF-8 system): regular files below the source directory all the same
     names += NON_UTF8_NAMES
     for n in names:
-        box.write(os.path.join(srcrel, n), STMT)
+        box.write(os.path.join(srcrel, n), b"ignored_by_git/\n/build\ntarget/\n*.rs\n" if n in (".gitignore", ".ignore") else STMT)
     for n, m in modes.items():
         os.chmod(os.path.join(src, n), m)
     os.chmod(os.path.join(src, "rodir"), 0o555)
